@@ -96,6 +96,12 @@ def run(name, tier='quick', checks=None):
         print('patch does not apply to /repo:', out)
         return 2
     results = {}
+    # evidence written while the patch is applied describes the patched tree: put the files back afterwards
+    saved = {}
+    for c in checks:
+        ep = os.path.join(VERIF, 'evidence', c + '.json')
+        if os.path.exists(ep):
+            saved[ep] = open(ep).read()
     try:
         for c in checks:
             t0 = time.time()
@@ -116,7 +122,9 @@ def run(name, tier='quick', checks=None):
             print(name, c, tier, 'exit', rc, '|', (viol[0] if viol else 'no violation'), '|', (detail or {}).get('what'))
     finally:
         sh(f'git -C {REPO} checkout -- .')
-        # evidence written while the patch was applied describes the patched tree: regenerate below
+        for ep, text in saved.items():
+            with open(ep, 'w') as fh:
+                fh.write(text)
     rp = os.path.join(dst, 'result.json')
     old = json.load(open(rp)) if os.path.exists(rp) else {}
     old.setdefault(tier, {}).update(results)
@@ -144,19 +152,21 @@ def table():
         own = meta['property']
         q = res.get('quick', {})
         t = res.get('thorough', {})
+
         def cell(r):
             if not r:
                 return '-'
             if r['exit'] == 1 and r['violation']:
-                d = r.get('detail') or {}
-                tail = 'no-failing-input-found' if 'no-failing-input-found' in r['violation'][0] else 'failing input'
-                return f'caught ({tail})'
+                return 'caught, no-failing-input-found' if 'no-failing-input-found' in r['violation'][0] else 'caught, failing input'
             if r['exit'] == 0:
                 return 'MISSED'
             return f'exit {r["exit"]}'
+        files = ' '.join(sorted({l.split('|')[0].strip().replace('cgsmiles/', '') for l in meta.get('files_touched', [])[:-1]}))
+        what = ((q.get(own) or {}).get('detail') or {}).get('what') or ''
+        what = what.replace('|', '/').replace('\n', ' ')[:90]
         others = sorted(c for c, r in q.items() if c != own and r['exit'] == 1)
-        rows.append(f'| {name} | {own} | {"; ".join(meta.get("files_touched", [])[:-1])[:60]} | {cell(q.get(own))} | {cell(t.get(own))} | {" ".join(others)} |')
-    print('| change | property | touches | own check, quick | own check, thorough | other quick checks that also report it |')
+        rows.append(f'| {name} | {files} | {cell(q.get(own))} | {cell(t.get(own))} | {what} | {" ".join(others)} |')
+    print('| change | file | own check, quick | thorough | reported as | other checks (quick) that also report it |')
     print('|---|---|---|---|---|---|')
     print('\n'.join(rows))
 
